@@ -122,6 +122,7 @@ type Job struct {
 	Pre       int      `json:"pre,omitempty"`      // bytes of unrelated content already stored at the output path before the call
 	Share     bool     `json:"share,omitempty"`    // take the renderer value (and, in single-job groups, the model object) from the episode's pool, as a program that keeps them in variables does
 	CloseAt   []int    `json:"close_at,omitempty"` // single producer: call Close() before these batch indices (mid-stream flush)
+	Fresh     bool     `json:"fresh,omitempty"`    // eval family: the callers mostly query points nobody has queried before
 	Warm      int      `json:"warm,omitempty"`     // eval family: sequential warm-up evaluations at distinct points before the concurrent phase
 	Coords    string   `json:"coords,omitempty"`   // index | wild
 	CoordSeed uint64   `json:"coord_seed,omitempty"`
